@@ -211,7 +211,8 @@ var expandLocal = strings.Repeat("Ⱥ", 511) // 1022 bytes, lower-cases to 1533 b
 var expandDomain = strings.TrimSuffix(strings.Repeat("xn--wgv"+strings.Repeat("a", 56)+".", 15), ".") // 959 bytes of A-labels, > 1023 bytes as U-labels
 
 var localPool = []string{expandLocal, "\u00ad", "", "a", "A", "a\tb", "\x1b", "ß", "ǅ", "ａ", "é", "a@b", "＠", "a/b", "a b", "a'", "a‍", "\xff", long1023, long1024, "ſ", "1"}
-var domainPool = []string{expandDomain, "\u00ad", "a\u00ad", "\u200b", "", "a", "A.b", "example.com", "example.com.", "example.com..", "EXAMPLE。com", "a。", "xn--bcher-kva.example", "xn--a", "xn--", "bücher.example", "[::1]", "[::A]", "[::1", "[fe80::1%eth0]", "[fe80::1%eth0/1]", "[fe80::1%a@b]", "127.0.0.1", "127.0.0.1.", "1.2.3", "a@b", "a/b", "a／b", "a＠b", "-a", "a-", "a b", "a‍b", ".", "..", "\xff", longDom, longDom2, "ß.example", "ǅ.example", "ａ.example", "[127.0.0.1]", "a_b"}
+var domainPool = []string{expandDomain, "\u00ad", "a\u00ad", "\u200b", "", "a", "A.b", "example.com", "example.com.", "example.com..", "EXAMPLE。com", "a。", "xn--bcher-kva.example", "xn--a", "xn--", "bücher.example", "[::1]", "[::A]", "[::1", "[fe80::1%eth0]", "[fe80::1%eth0/1]", "[fe80::1%a@b]", "127.0.0.1", "127.0.0.1.", "1.2.3", "a@b", "a/b", "a／b", "a＠b", "-a", "a-", "a b", "a‍b", ".", "..", "\xff", longDom, longDom2, "ß.example", "ǅ.example", "ａ.example", "[127.0.0.1]", "a_b",
+	"\u03b2\u03cc\u03bb\u03bf\u03c2.example", "\u03b2\u03cc\u03bb\u03bf\u03c3.example"} // final and medial sigma: equal under simple case folding, distinct domains under non-transitional IDNA
 var resPool = []string{"", "a", "A", "a/b", "a@b", "/", "@", " ", "a\tb", "a\nb", "a\x00", "\x7f", "a b", "a b", "ａ", "é", "it's<&>\"", "\xff", long1023, long1024, "‍", "ß"}
 
 // pairsBody: Equal on pairs of addresses agrees with the part accessors. The
@@ -250,14 +251,14 @@ func pairsBody(c *nd.Ctx) nd.Result {
 	return res
 }
 
-func partsBody(c *nd.Ctx) nd.Result {
+func partsBody(c *nd.Ctx) (res nd.Result) {
 	l := localPool[c.Choose(len(localPool), "local")]
 	d := domainPool[c.Choose(len(domainPool), "domain")]
 	r := resPool[c.Choose(len(resPool), "resource")]
 	in := join(l, d, r)
 	how := fmt.Sprintf("New(%s,%s,%s)", ab(l), ab(d), ab(r))
 	c.Note("%s", how)
-	res := nd.Result{Outcome: "rejected"}
+	res = nd.Result{Outcome: "rejected"}
 	var j jid.JID
 	var err error
 	if p := nd.Catch(func() { j, err = jid.New(l, d, r) }); p != nil {
@@ -280,6 +281,47 @@ func partsBody(c *nd.Ctx) nd.Result {
 	res.NonTrivial = how
 	if v := checkJID(j, how, in); v != nil {
 		res.Violation = v
+		return res
+	}
+	// values are immutable: whatever is derived from an address later, the
+	// address and everything derived from it earlier keep their value
+	type kept struct {
+		j    jid.JID
+		s    string
+		what string
+	}
+	keep := []kept{{j, j.String(), how}}
+	remember := func(v jid.JID, what string) { keep = append(keep, kept{v, v.String(), what}) }
+	defer func() {
+		if res.Violation != nil {
+			return
+		}
+		for _, k := range keep {
+			if k.j.String() != k.s {
+				res.Violation = viol("with:changes-an-earlier-value", "%s was %s and reads %s after later calls on values derived from the same address", k.what, ab(k.s), ab(k.j.String()))
+				return
+			}
+		}
+	}()
+	if p := nd.Catch(func() {
+		b, dm := j.Bare(), j.Domain()
+		remember(b, how+".Bare()")
+		remember(dm, how+".Domain()")
+		for _, nr := range []string{"bobby", "zo\u00e9", "x"} {
+			if v, err := b.WithResource(nr); err == nil {
+				remember(v, how+".Bare().WithResource("+nr+")")
+			}
+			if v, err := dm.WithResource(nr); err == nil {
+				remember(v, how+".Domain().WithResource("+nr+")")
+			}
+		}
+		for _, nl := range []string{"carol", "\uff43"} {
+			if v, err := dm.WithLocal(nl); err == nil {
+				remember(v, how+".Domain().WithLocal("+nl+")")
+			}
+		}
+	}); p != nil {
+		res.Violation = viol("with:"+p.Sig(), "%s: deriving from Bare()/Domain() panics: %s", how, p.Value)
 		return res
 	}
 	// replacing one part agrees with building from parts
